@@ -10,7 +10,7 @@ def run(ctx):
     ctx.assumptions.append("Spec/RC11.lean (`doc` instance: SeqCst accesses as acquire/release, SeqCst fences in psc) is "
                            "trusted as the meaning of 'C11 allows'; values stored to a location are distinct, so the "
                            "outcome determines reads-from")
-    ctx.std_flow(programs, 4000 if ctx.quick else 100000, "safety",
+    ctx.std_flow(programs, 4000 if ctx.quick else 30000, "safety",
                  lambda impl: ctx.rc11_check(programs, impl, lower=False, upper=True),
                  "the litmus family of C02 (other seed); every iteration the implementation executes must be an outcome "
                  "of RC11(doc); the decisions of every iteration are replayed on the twin when the explorations "
